@@ -77,7 +77,7 @@ def plan(tier):
 
 def floors(tier):
     if tier == "thorough":
-        return {"snapshotted_calls": 500000, "exempt_inplace_calls": 5000, "copy_histories": 500, "suite_files_run": 100}
+        return {"snapshotted_calls": 500000, "exempt_inplace_calls": 5000, "copy_histories": 500, "suite_files_run": 80}
     return {"snapshotted_calls": 20000, "exempt_inplace_calls": 100, "copy_histories": 40}
 
 
